@@ -170,5 +170,6 @@ pub fn c02_space(tier: Tier) -> DocSpace {
     s.add_all("annotations", gen::docs_for_annotations(), Lay::Base);
     s.add_all("headers", gen::docs_for_headers(), if q { Lay::DefMin } else { Lay::Base });
     s.add_all("names", gen::docs_for_names(), Lay::Base);
+    s.add_all("sizes", gen::docs_for_sizes(), Lay::Base);
     s
 }
